@@ -712,17 +712,24 @@ def neutral_transforms(cfg, rng):
     out = []
     def T(name, f):
         c = copy.deepcopy(cfg); f(c); out.append((name, c))
-    fld = cfg.get("field") or {}
     irr = cfg.get("irr") or {"irrigation_method": 0}
     meth = irr.get("irrigation_method", 0)
-    if not fld.get("mulches"):
-        T("mulch parameters without mulches", lambda c: c.__setitem__("field", dict(c.get("field") or {}, mulches=False, mulch_pct=rng.choice([30, 100]), f_mulch=rng.choice([0.3, 1.0]))))
-        T("mulches on with 0 % cover", lambda c: c.__setitem__("field", dict(c.get("field") or {}, mulches=True, mulch_pct=0, f_mulch=0.5)))
-        T("mulches on with mulch factor 0", lambda c: c.__setitem__("field", dict(c.get("field") or {}, mulches=True, mulch_pct=70, f_mulch=0)))
-    if not fld.get("bunds"):
-        T("bund parameters without bunds", lambda c: c.__setitem__("field", dict(c.get("field") or {}, bunds=False, z_bund=rng.choice([0.1, 0.25]), bund_water=rng.choice([10.0, 80.0]))))
-    if not fld.get("curve_number_adj"):
-        T("curve-number percentage without its flag", lambda c: c.__setitem__("field", dict(c.get("field") or {}, curve_number_adj=False, curve_number_adj_pct=rng.choice([-25, 15, 40]))))
+    # the growing-season field management, and the FALLOW field management (in force on the days before the first planting date and on
+    # off-season days): the same switches, the same inert parameters
+    keys = ["field"] + (["fallow_field"] if (cfg.get("off_season") or rng.random() < 0.3) else [])
+    for key in keys:
+        fld = cfg.get(key) or {}
+        tag = "" if key == "field" else " (fallow field management)"
+        def S(c, key=key, **kw):
+            c[key] = dict(c.get(key) or {}, **kw)
+        if not fld.get("mulches"):
+            T("mulch parameters without mulches" + tag, lambda c, S=S, a=rng.choice([30, 100]), b=rng.choice([0.3, 1.0]): S(c, mulches=False, mulch_pct=a, f_mulch=b))
+            T("mulches on with 0 % cover" + tag, lambda c, S=S: S(c, mulches=True, mulch_pct=0, f_mulch=0.5))
+            T("mulches on with mulch factor 0" + tag, lambda c, S=S: S(c, mulches=True, mulch_pct=70, f_mulch=0))
+        if not fld.get("bunds"):
+            T("bund parameters without bunds" + tag, lambda c, S=S, a=rng.choice([0.1, 0.25]), b=rng.choice([10.0, 80.0]): S(c, bunds=False, z_bund=a, bund_water=b))
+        if not fld.get("curve_number_adj"):
+            T("curve-number percentage without its flag" + tag, lambda c, S=S, a=rng.choice([-25, 15, 40]): S(c, curve_number_adj=False, curve_number_adj_pct=a))
     # parameters of other irrigation strategies
     def other(c):
         i = dict(c.get("irr") or {"irrigation_method": 0})
@@ -765,7 +772,7 @@ def _c20(payload):
         for name, c in trs:
             if name.startswith("rainfed ==") or name.startswith("mulches on") or name.startswith("explicit"):
                 continue
-            for k in ("field", "irr"):
+            for k in ("field", "fallow_field", "irr"):
                 if c.get(k) != cfg.get(k):
                     comb[k] = dict(comb.get(k) or {}, **(c.get(k) or {}))
             names.append(name)
